@@ -2,6 +2,7 @@ package vrun
 
 import (
 	"fmt"
+	"strings"
 	"sync"
 	"sync/atomic"
 	"testing"
@@ -135,6 +136,24 @@ func c11Parallel(idx int, seed uint64) {
 			c.SendPacket(&rc.Packet{Type: rc.DISCONNECT})
 			c.Flush()
 			c.Close()
+		}
+		// the client comes back alone with a CONNECT that is longer than any it sent before (a will and
+		// credentials added): acceptable as well, whatever is stored for the identifier by now
+		if kind != "different-ids" {
+			curGate.Store(nil)
+			o := connectOpts{ClientID: fmt.Sprintf("par-%d-%d", idx, g), Clean: false, KeepAlive: 6000, User: "user-" + strings.Repeat("x", r.Intn(200)), Pass: "pw",
+				Will: &rc.Packet{Topic: []byte("par/will"), Payload: r.Bytes(1 + r.Intn(200))}}
+			c := rawclient.New(fmt.Sprintf("g%d-again", g), w.pipe(), nil)
+			c.SendPacket(connectPacket(o))
+			c.WaitFor(func(l []rawclient.Event, closed bool) bool { return len(l) > 0 || closed }, wait)
+			if l := c.Log(); len(l) == 0 || l[0].P.Type != rc.CONNACK || l[0].P.ReturnCode != 0 {
+				fail("c11:parallel:longer-connect-refused", fmt.Sprintf("group %d: the client identifier reconnected alone (CleanSession=0) with a longer CONNECT (will, user name and password added, %d bytes): not answered with CONNACK 0 (closed=%v)", g, len(rc.Encode(connectPacket(o))), c.Closed()))
+				return
+			}
+			c.SendPacket(&rc.Packet{Type: rc.DISCONNECT})
+			c.Flush()
+			c.Close()
+			out.Count("c11.longer_reconnects", 1)
 		}
 		out.Count("c11.parallel_groups", 1)
 		out.Class(fmt.Sprintf("parallel/%s/n%d", kind, n))
